@@ -10,6 +10,7 @@ import re
 
 from lib import luagen as L
 from lib import reflex
+from lib import core
 from lib.core import ShardResult, h64
 from props import c08
 
@@ -38,7 +39,7 @@ def lua_mod():
 
 def fmt(src, width):
     lua = lua_mod()
-    obj = lua.Lua.from_lines([src], version=8)
+    obj = lua.Lua.from_lines([src], version=core.lua_version(src))
     return b''.join(obj.to_lines(writer_cls=lua.LuaFormatterWriter, writer_args={'indentwidth': width}))
 
 
